@@ -143,11 +143,17 @@ fn verif_replay() {
                     if let Err(e) = w {
                         return serde_json::json!({"write_ok": false, "err": e.to_string(), "written": hex(&written)});
                     }
-                    let (mut io2, _out2) = script(written.clone(), chunk);
+                    let tail = unhex(a["tail"].as_str().unwrap_or(""));
+                    let mut input2 = written.clone();
+                    input2.extend_from_slice(&tail);
+                    let (mut io2, _out2) = script(input2, chunk);
                     let rd = SocksRequest::read_from(&mut io2, NoAuth).await;
+                    use tokio::io::AsyncReadExt;
+                    let mut rest = vec![];
+                    let _ = io2.read_to_end(&mut rest).await;
                     match rd {
                         Ok(r2) => serde_json::json!({"write_ok": true, "written": hex(&written), "flushed": flushed, "read_ok": true, "request": show_req(&r2),
-                            "same_target": r2.target == target, "same_cmd": r2.cmd == cmd, "sent": show(&Some(target.clone()))}),
+                            "same_target": r2.target == target, "same_cmd": r2.cmd == cmd, "sent": show(&Some(target.clone())), "rest": hex(&rest), "rest_is_tail": rest == tail}),
                         Err(e) => serde_json::json!({"write_ok": true, "written": hex(&written), "flushed": flushed, "read_ok": false, "err": e.to_string(), "sent": show(&Some(target.clone()))}),
                     }
                 })
